@@ -70,6 +70,11 @@ func (svc *service) receiver() {
 				if !isEOF(err) {
 					log.Debugf("(%s) Reading from connection failed: %v", svc.cid(), err)
 				}
+				// Nothing more will come from this connection (closed, or keep-alive expired): release
+				// whoever waits for room in its outgoing buffer. A writer waiting there holds the write
+				// lock of this connection; the processor of this connection may be waiting for that lock
+				// and would never get to see the end of the incoming stream.
+				svc.out.Close()
 				return
 			}
 		}
